@@ -416,8 +416,10 @@ READER_TRACE = ("WSBoundaryTrace.tla", "WSBoundaryTrace.cfg")
 
 
 def rframe(f, side):
+    # a close frame of n >= 2 bytes is a status code (1000) plus a reason of n - 2 bytes
+    code = 1000 if f["op"] == 8 and f["len"] >= 2 else -1
     return dict(op=f["op"], fin=f["fin"], r1=False, r2=False, r3=False, mk=(side == "server"), len=f["len"], lk="n",
-                nonmin=False, code=-1, rs="ok", comp="", plain=0, key="")
+                nonmin=False, code=code, rs="ok", comp="", plain=0, key="")
 
 
 def conc_c17(progs, tier, seed, mult):
@@ -446,7 +448,20 @@ def path_floors(conc, files):
                 delivered += 1
     if delivered == 0:
         raise core.Infra("coverage floor missed: no message was delivered")
-    return dict(paths=dict(c), messages_delivered=delivered)
+    # control-frame sub-space: a control frame with a payload larger than a small configured read buffer, bytes buffered
+    ctl = Counter()
+    for p in conc:
+        big = max([f["len"] for f in p["frames"] if f["op"] >= 8] or [-1])
+        if big >= 0:
+            ctl["programs_with_control_frames"] += 1
+            if 0 < p["rbuf"] < big and p["k"] > 0:
+                ctl["control_payload_above_ReadBufferSize_with_early_data_%s" % p["side"]] += 1
+    for need in ("control_payload_above_ReadBufferSize_with_early_data_server", "control_payload_above_ReadBufferSize_with_early_data_client"):
+        if ctl[need] == 0:
+            raise core.Infra("coverage floor missed: no program with %s" % need)
+    return dict(paths=dict(c), messages_delivered=delivered, control_frame_subspace=dict(ctl),
+                read_buffer_sizes=sorted({p["rbuf"] for p in conc}), hijacked_reader_sizes=sorted({p["hsize"] for p in conc}),
+                control_payload_sizes=sorted({f["len"] for p in conc for f in p["frames"] if f["op"] >= 8}))
 
 
 def describe_c17(prog):
@@ -467,7 +482,10 @@ def c17(tier):
                           "bounds: only the program spaces named in the MC configs are explored"],
                       rule="abstract programs = initial states of MC_C17: frame stream x EVERY split offset k x ReadBufferSize x hijacked "
                            "reader size (server; paths reuse/wrap/fresh each hit: floor) and x Dialer.ReadBufferSize with the split anywhere in "
-                           "'101 response + frames' (client); non-trivial: every program delivers at least one message; distinct by abstract program")
+                           "'101 response + frames' (client); control-frame sub-space: ping / pong / close of every payload size up to 125 (quick: the "
+                           "sizes around the small buffer sizes) in the glued bytes x ReadBufferSize {1,16,64,124,125,126,..} x hijacked reader size x "
+                           "split points {0, 1, in / after the first header, mid payload, end of first frame, all but one byte, all}; "
+                           "non-trivial: every program delivers at least one message; distinct by abstract program")
     return rc
 
 
